@@ -1,0 +1,14 @@
+//go:build verif
+
+package client
+
+// VerifAt, when set, is called at a few named points of the websocket client so
+// that a verification harness can observe, and hold, a goroutine there. It is
+// compiled only with the "verif" build tag.
+var VerifAt func(label string, arg interface{})
+
+func verifAt(label string, arg interface{}) {
+	if f := VerifAt; f != nil {
+		f(label, arg)
+	}
+}
